@@ -214,6 +214,8 @@ type c16Spec struct {
 	closeBeforeServe bool
 	// listeners: number of listeners served by the one Server (0 = 1); connection i arrives on listener i % listeners
 	listeners int
+	// auth: the server asks for a cleartext password
+	auth bool
 	// twoStatements: every query consists of two statements (C05: a cycle is never cut short between them)
 	twoStatements bool
 	// poolFIFO: sync.Pool shims hand out the oldest item instead of the newest one
@@ -242,6 +244,10 @@ func c16Specs() []c16Spec {
 			desc: "two Query messages arriving in one segment (the second is already buffered while the first handler runs) + Close"},
 		{name: "X12", conns: []c16Conn{{"c1", [][]byte{start, pgproto.Msg('Q', []byte("no terminator")), q}}, {"c2", [][]byte{start, q}}}, closers: 1, secondClose: true,
 			desc: "a connection that ends with a malformed message (its command fails with a connection-level error) next to a normal one + Close + a second Close: every admitted command is released"},
+		{name: "X13", conns: []c16Conn{{"c1", [][]byte{start}}, {"c2", [][]byte{start, pgproto.Password("pw"), q}}}, closers: 1, auth: true,
+			desc: "password authentication: one client never answers the password request, another one logs in and runs a Query + Close (a connection that is merely inside the start-up exchange holds up nobody)"},
+		{name: "X14", conns: []c16Conn{{"c1", [][]byte{start, pgproto.Cat(pgproto.Parse("", "q"), pgproto.Sync()), pgproto.Cat(pgproto.Parse("s", "q"), pgproto.Describe('S', "s"), pgproto.Sync())}}}, closers: 1,
+			desc: "extended protocol: Parse + Sync twice (the parser is user code too: none starts after Close returned) + Close"},
 		{name: "X8", conns: []c16Conn{{"c1", [][]byte{start, q}}}, closers: 1, acceptFault: true,
 			desc: "the listener fails with an Accept error (Serve returns it) while a connection is inside a handler, then Close"},
 	}
@@ -267,7 +273,13 @@ func c16Scenario(spec c16Spec) *Scenario {
 				if spec.twoStatements {
 					parse = c16ParseTwo(log)
 				}
-				srv, err := wire.NewServer(parse, wire.Logger(harness.Quiet), wire.MessageBufferSize(1<<12))
+				sopts := []wire.OptionFn{wire.Logger(harness.Quiet), wire.MessageBufferSize(1 << 12)}
+				if spec.auth {
+					sopts = append(sopts, wire.SessionAuthStrategy(wire.ClearTextPassword(func(ctx context.Context, db, user, pw string) (context.Context, bool, error) {
+						return ctx, pw == "pw", nil
+					})))
+				}
+				srv, err := wire.NewServer(parse, sopts...)
 				if err != nil {
 					panic(err)
 				}
